@@ -41,7 +41,7 @@ CLAIMS = {
              'families (interval integrals, no external hypothesis for Clayton/Gumbel); tied by running the fit model at Float '
              'on the quantities the real fit derives from data.',
         note='Frank solver (least_squares, quad) and scipy kendalltau are external hypotheses, cross-checked every run; '
-             'Frank near tau=0 is a recorded finding; Props/C10c: ideal Frank calibration odd, strictly monotone, range (-1,1), existence and uniqueness of theta; exact epsilon-shift of the code\'s residual and the mechanism of the recorded near-zero finding',
+             'Frank near tau=0 is a recorded finding; Props/C10c: ideal Frank calibration odd, strictly monotone, range (-1,1), existence and uniqueness of theta; exact epsilon-shift of the code\'s residual and the mechanism of the recorded near-zero finding; Props/C10d: complementary closed forms 2/(theta+2) = 1-tau, 1/theta = 1-tau for the generated compute_theta and unboundedness of theta as tau -> 1 (no cap is compatible)',
         tech='Lean 4 proof over generated calibrations + hand model of fit with correspondence', ref='5 C10'),
     'C18': dict(
         text='Lean 4 theorems about faithful models of bisect and chandrupatla (any number of lanes, any maxiter): bisect '
